@@ -112,7 +112,11 @@ pub fn install_panic_hook() {
                 .map(|l| {
                     let f = l.file();
                     // keep path relative to the repo so signatures are stable
-                    let f = f.strip_prefix("/repo/").unwrap_or(f);
+                    // (also when the checked tree is a scratch worktree, see tools/check_tree.sh)
+                    let f = match f.find("/crates/ruma") {
+                        Some(i) => &f[i + 1..],
+                        None => f.strip_prefix("/repo/").unwrap_or(f),
+                    };
                     format!("{}:{}", f, l.line())
                 })
                 .unwrap_or_else(|| "?".into());
